@@ -287,6 +287,40 @@ SPECIAL.append(c19_special)
 SPECIAL_BOUNDED.append(c19_bounded)
 
 
+def update_bounded(pid, name, repo, unsupported):
+    """`_update` outside the executed subset (e.g. its loops were restructured, so the sidecar invariants no longer fit):
+    the CPython cross-check sweep of the in-memory update for that class (all ordered pairs of the document pool)."""
+    if unsupported is None:
+        return None
+    m = re.match(r"^(\w+)\._update/", unsupported["instance"])
+    if not m:
+        return None
+    cname = m.group(1)
+    info = {"obligation": name, "tool": "replay/update_replay.py",
+            "bound": "all ordered pairs (old, new) of the document pool of update_replay.py; root and retained child handles"}
+    env = dict(os.environ, PYTHONPATH=repo)
+    try:
+        r = subprocess.run([VENV_PY, os.path.join(ROOT, "replay", "update_replay.py"), "search", cname],
+                           env=env, capture_output=True, text=True, timeout=900)
+        res = json.loads(r.stdout.strip().splitlines()[-1])
+    except Exception as e:      # noqa: BLE001
+        info["error"] = f"{type(e).__name__}: {e}"
+        return None, info
+    info["cases"] = res.get("cases")
+    if res.get("error"):
+        info["error"] = res["error"]
+        return None, info
+    if res.get("found"):
+        os.makedirs(REPLAY_DIR, exist_ok=True)
+        path = os.path.join(REPLAY_DIR, f"{pid}-bounded-{cname}-update.json")
+        json.dump({"property": pid, "scenario": res["scenario"], "message": res["message"],
+                   "confirmed_on_real_code": True, "found_by": "bounded stand-in", "script": "replay/update_replay.py",
+                   "script_args": ["run", "{self}"]}, open(path, "w"), indent=1)
+        info.update(violation=res["message"], replay=path)
+        return False, info
+    return True, info
+
+
 def resource_bounded(pid, name, repo, unsupported):
     """A resource function (_save_to_resource / _load_from_resource) outside the executed subset: the round-trip
     sweep of that class, in the default mode and with the thread-safety layer switched off (plain in-place writes)."""
@@ -327,6 +361,7 @@ def resource_bounded(pid, name, repo, unsupported):
 
 
 SPECIAL_BOUNDED.append(resource_bounded)
+SPECIAL_BOUNDED.append(update_bounded)
 
 
 def update_special(pid, key, items, repo):
